@@ -100,7 +100,10 @@ type History struct {
 	Unpub       []Placed
 	Additional  []Placed
 	VersionID   int64
-	VersionTime *int64
+	// VersionIDRaw, when set, is the version id string handed to the processor; VersionID must then be an
+	// identifier that no operation carries (the model sees an unknown id)
+	VersionIDRaw string
+	VersionTime  *int64
 	Note        string
 }
 
@@ -194,7 +197,9 @@ func (h *History) Run(pc protocol.Client, tb *Table, oidOf func(*operation.Ancho
 		}
 		ropts = append(ropts, document.WithAdditionalOperations(add))
 	}
-	if h.VersionID != 0 {
+	if h.VersionIDRaw != "" {
+		ropts = append(ropts, document.WithVersionID(h.VersionIDRaw))
+	} else if h.VersionID != 0 {
 		ropts = append(ropts, document.WithVersionID(CRefString(h.VersionID)))
 	}
 	if h.VersionTime != nil {
